@@ -17,6 +17,16 @@ probability" holds in exact arithmetic only; the code works in floats — this c
 explored inputs, it does not prove it.  Standard vs rotated networks and by-column vs by-row are compared with the same
 exact value, hence with each other.  The Lean value itself is cross-checked, for codes of at most 8 qubits, with an
 independent Python enumeration of all 4^n errors grouped by (syndrome, logical class) — exact integer equality.
+
+The planar MPS decoder's NETWORK is inside the model (Model/PlanarTn.lean, `planarTn`, mirroring `TNC.create_tn`): section
+"planar network" below compares, for planar codes up to 4x4 / 2x6 / 3x5, random and decoder-made samples (and their
+three logical variants, i.e. the four networks `_coset_probabilities` builds) and random distributions, EVERY TENSOR of
+the real `create_tn` entry by entry with the model network (exactly: an h/v-node entry is one of the four given floats,
+so entry * D is the integer numerator; deltas are integers), and the model network's exact contraction value (C11's
+`contract`, proved equal to the index sum `exactValue`) with the exact spec `cosetProb` computed by the driver — on the
+REAL code's stabilizer matrix (`cosets` op) and on the model's `Planar.stabilizers` (`tncoset` op, the statement of
+theorem `planar_tn_value`).  Theorems (Props/C10/Network.lean): `factor_graph_identity` (generic) and the planar
+instance; see that file for what is proved and what is only stated.
 """
 import json
 import math
@@ -38,7 +48,12 @@ RULE = ('codes: planar RxC, rotated planar RxC, colour 6.6.6 with stabilizer gro
         '(code, syndrome, distribution) with the group of real decoder configurations run on it; a case passes iff '
         'every recorded coset probability is within rel 1e-11 of the exact Lean rational, the four recoveries carry '
         'the syndrome and lie in four distinct logical cosets, and decode returns the exact arg-max class when the '
-        'exact relative gap > 1e-9; non-trivial = non-zero syndrome')
+        'exact relative gap > 1e-9; non-trivial = non-zero syndrome; planar network section: planar 2x2..4x4, 2x5, 2x6, '
+        '3x5 (and transposes), samples = decoder sample_recovery of random syndromes or uniformly random Paulis, each '
+        'with its X/Y/Z logical variants, distributions as above: every tensor of TNC.create_tn equals the model '
+        'planarTn entry-wise (exact integers over D), and the model network exact contraction equals the exact '
+        'cosetProb (driver, real and model stabilizers) or, above 2^17 group elements, the real float contraction '
+        'within rel 1e-11')
 
 REL_TOL = Fraction(1, 10 ** 11)
 GAP_TOL = Fraction(1, 10 ** 9)
@@ -468,6 +483,7 @@ def run(ctx):
                 n_cases += 1
         ctx.flush()
     y_cases(ctx)
+    tn_cases(ctx)
     ctx.extra['exhaustive_codes'] = exhaustive_codes
     ctx.extra['worst_relative_deviation'] = dict(WORST)
     if getattr(ctx, 'nolean', False):
@@ -480,7 +496,14 @@ def run(ctx):
                     'rational; recoveries carry the syndrome and cover all cosets; decode class = exact arg-max when '
                     'rel gap > 1e-9',
             'exhaustive': False,
-            'all_syndromes_for': exhaustive_codes}}
+            'all_syndromes_for': exhaustive_codes},
+        'planar network: real create_tn tensors == model planarTn (entry-wise, exact); model exact contraction == '
+        'exact spec cosetProb': {
+            'evaluations': ctx.extra.get('tn_networks', 0),
+            'rule': 'each (size, sample variant, distribution): all (2R-1)(2C-1) tensors equal; exact value equal '
+                    'where the stabilizer group has <= 2^17 elements (quick) / 2^22 (thorough), else the real float '
+                    'contraction within rel 1e-11 of the model value',
+            'exhaustive': False}}
     return ctx.finish(RULE, search=search, explanation=(
         'spec theorems proved in Lean; the numerical agreement of the float/mpf contractions with the spec is bounded '
         'on the explored inputs only (see explored)'))
@@ -627,12 +650,188 @@ def y_cases(ctx):
         ctx.flush()
 
 
+# ------------------------------------------------------------------------------------------------ planar network
+
+def tn_plan(ctx):
+    """(size, items, spec) — spec: 'cosets' = all four variants against the REAL matrices, 'tncoset' = the sample
+    itself against the model's stabilizers, 'float' = only the real float contraction (group too large)"""
+    q = ctx.quick()
+    P = [((2, 2), 6 if q else 24, 'cosets')]
+    P += [(s, 3 if q else 10, 'cosets') for s in [(2, 3), (3, 2), (3, 3), (2, 4), (4, 2)]]
+    P += [(s, 2 if q else 4, 'cosets') for s in [(2, 5), (5, 2)]]
+    P += [(s, 1 if q else 3, 'tncoset') for s in [(3, 4), (4, 3), (2, 6), (6, 2)]]
+    P += [(s, 1 if q else 3, 'float') for s in [(4, 4), (5, 3)]]
+    P += [((3, 5), 1, 'float' if q else 'tncoset')]
+    return P
+
+
+def ser_real_tn(tn, D):
+    """the real network in the C11 wire format, float entries as exact multiples of 1/D (an entry that is not such
+    a multiple is written as a fraction and can never equal the model's integer)"""
+    toks = []
+    for r in range(tn.shape[0]):
+        for c in range(tn.shape[1]):
+            t = tn[r, c]
+            if t is None:
+                toks.append('N'); continue
+            t = np.asarray(t)
+            if t.ndim != 4:
+                toks.append('ndim{}'.format(t.ndim)); continue
+            ent = []
+            for x in t.flatten():
+                if isinstance(x, (int, np.integer)):
+                    ent.append(str(int(x)))       # delta tensors: dtype=int, compared as they are
+                else:
+                    x = float(x)
+                    v = Fraction(x) * D if math.isfinite(x) else None
+                    ent.append(repr(x) if v is None else (str(int(v)) if v.denominator == 1 else
+                                                          '{}/{}'.format(v.numerator, v.denominator)))
+            toks.append('.'.join(str(int(d)) for d in t.shape) + ':' + ','.join(ent))
+    return 'ok {}x{} {}'.format(tn.shape[0], tn.shape[1], ';'.join(toks))
+
+
+def tn_variants(code, f):
+    """the four sample Paulis of `_coset_probabilities` (I, X̄, Ȳ, Z̄), made by the real PlanarPauli methods"""
+    sp = code.new_pauli(np.array(f, dtype=int))
+    return [sp, sp.copy().logical_x(), sp.copy().logical_x().logical_z(), sp.copy().logical_z()]
+
+
+def tn_cases(ctx):
+    from qecsim.models.planar import PlanarCode, PlanarMPSDecoder
+    from qecsim import tensortools as tt
+    rng = ctx.rng
+    raw = raw_model_dists()
+    items = []
+    for size, n_items, spec in tn_plan(ctx):
+        code = PlanarCode(*size)
+        n = code.n_k_d[0]
+        for j in range(n_items):
+            if j % 2 == 0:   # the decoder's own sample for a random syndrome (low weight half the time)
+                i = rng.getrandbits(len(code.stabilizers))
+                if j % 4 == 2:
+                    i &= rng.getrandbits(len(code.stabilizers))
+                syn = [(i >> k) & 1 for k in range(len(code.stabilizers))]
+                f = [int(x) for x in PlanarMPSDecoder.sample_recovery(code, np.array(syn, dtype=int)).to_bsf()]
+                src = 'sample_recovery'
+            else:            # any Pauli
+                f = [rng.randrange(2) for _ in range(2 * n)]
+                src = 'random'
+            if j == 0 and size == (2, 2):
+                kind, dist = raw[0]
+            elif rng.random() < 0.15:
+                kind, dist = raw[rng.randrange(len(raw))]
+            else:
+                kind = KINDS[rng.randrange(len(KINDS))]
+                dist = make_dist(rng, kind, rng.choice(PS))
+            items.append((size, code, f, src, kind, tuple(float(x) for x in dist), spec))
+    # phase 1: the exact spec values, from the driver (Lean `cosetProb`)
+    spec_lines = []
+    for size, code, f, src, kind, dist, spec in items:
+        a, D = numerators(dist)
+        if spec == 'cosets':
+            spec_lines.append('c10 cosets {} {} {} {} {} {} {}'.format(mat(code.stabilizers), mat(code.logicals),
+                                                                      bits(f), *a))
+        elif spec == 'tncoset':
+            spec_lines.append('c10 tncoset {} {} {} {} {} {} {}'.format(size[0], size[1], bits(f), *a))
+    spec_out = iter(ctx.driver.ask(spec_lines))
+    # phase 2: the cases
+    tnc = PlanarMPSDecoder.TNC()
+    for size, code, f, src, kind, dist, spec in items:
+        a, D = numerators(dist)
+        n = code.n_k_d[0]
+        meta = {'family': 'planar-tn', 'size': list(size), 'sample': bits(f), 'dist': [x.hex() for x in dist],
+                'kind': kind, 'sample_source': src}
+        want = None
+        if spec == 'cosets':
+            want = next(spec_out).split()[0].split(',')
+        elif spec == 'tncoset':
+            want = [next(spec_out)]
+        try:
+            variants = tn_variants(code, f)
+        except Exception as ex:
+            ctx.monitor_fail('PlanarPauli logical_x / logical_z raised ' + repr(ex)[:80], meta, key='C10:tn:variants')
+            continue
+        for vi, sp in enumerate(variants):
+            fv = bits(sp.to_bsf())
+            vmeta = dict(meta, variant='IXYZ'[vi])
+            real_val = None
+            try:
+                tn = tnc.create_tn(dist, sp)
+                impl = ser_real_tn(tn, D)
+                if spec == 'float':
+                    with core.TimeLimit(DECODE_LIMIT):
+                        real_val = to_fraction(tt.mps2d.contract(tn))
+            except Exception as ex:
+                impl = 'raised {}:{}'.format(type(ex).__name__, str(ex)[:60])
+            ctx.case('c10 tn {} {} {} {} {} {} {}'.format(size[0], size[1], fv, *a), impl,
+                     nontrivial=True, meta=vmeta)
+            ctx.extra['tn_networks'] = ctx.extra.get('tn_networks', 0) + 1
+            ctx.count('tn_code', 'planar{}x{}'.format(*size)); ctx.count('tn_sample', src)
+            line = 'c10 tnvalue {} {} {} {} {} {} {}'.format(size[0], size[1], fv, *a)
+            if want is not None and vi < len(want):
+                # exact: contraction of the model network == cosetProb (both Lean, both integers over D^n)
+                ctx.case(line, 'ok s ' + want[vi], nontrivial=True, meta=vmeta)
+            elif spec == 'float':
+                def post(reply, real_val=real_val, D=D, n=n):
+                    toks = reply.split()
+                    if toks[:2] != ['ok', 's'] or real_val is None:
+                        return 'model {} real {}'.format(reply[:40], real_val)
+                    exact = Fraction(int(toks[2])) / Fraction(D) ** n
+                    dev = abs(real_val - exact)
+                    return 'ok' if dev <= REL_TOL * exact or (exact == 0 and dev <= REL_TOL) else \
+                        'real contraction {!r} differs from the model network value {:.17e}'.format(
+                            float(real_val), float(exact))
+                ctx.case(line, 'ok', nontrivial=True, meta=vmeta, post=post)
+        if size == (2, 2):
+            # the literal index sum (`exactValue`, 2^12 assignments) == contraction == spec
+            ctx.case('c10 tnexact 2 2 {} {} {} {} {}'.format(bits(f), *a), 'ok ' + want[0], nontrivial=True, meta=meta)
+        if spec == 'cosets' and len(code.stabilizers) <= 10:
+            # the spec on the model's own stabilizers (statement of planar_tn_value) == the spec on the real matrices
+            ctx.case('c10 tncoset {} {} {} {} {} {} {}'.format(size[0], size[1], bits(f), *a), want[0],
+                     nontrivial=True, meta=meta)
+    ctx.flush()
+
+
+def evaluate_tn_input(meta):
+    """the property on the real code for a network case: `_coset_probabilities(dist, sample)` of the real
+    PlanarMPSDecoder (modes c and r) against the exact coset sums enumerated in Python"""
+    from qecsim.models.planar import PlanarCode, PlanarMPSDecoder
+    code = PlanarCode(*meta['size'])
+    n = code.n_k_d[0]
+    if len(code.stabilizers) > 17:
+        return None
+    dist = tuple(float.fromhex(x) for x in meta['dist'])
+    f = np.array([int(c) for c in meta['sample']], dtype=int)
+    a, D = numerators(dist)
+    exact = [Fraction(x) / Fraction(D) ** n for x in python_exact(code, f, a)]
+    for mode in ('c', 'r'):
+        try:
+            with core.TimeLimit(DECODE_LIMIT):
+                ps, _ = PlanarMPSDecoder(mode=mode)._coset_probabilities(dist, code.new_pauli(f))
+        except Exception as ex:
+            return {'what': 'PlanarMPSDecoder(mode={})._coset_probabilities raised {!r}'.format(mode, ex)[:300],
+                    'code': 'PlanarCode{}'.format(tuple(meta['size'])), 'sample_pauli_bsf': meta['sample'],
+                    'prob_dist': list(dist)}
+        for i, (p, e) in enumerate(zip(ps, exact)):
+            pf = to_fraction(p)
+            if pf is None or abs(pf - e) > (REL_TOL * e if e > 0 else REL_TOL * (max(exact) if max(exact) else 1)):
+                return {'what': 'PlanarMPSDecoder(mode={}, chi=None)._coset_probabilities: coset {} probability {!r} '
+                                'differs from the exact coset sum {:.17e}'.format(mode, 'IXYZ'[i], p, float(e)),
+                        'decoder': 'PlanarMPSDecoder', 'mode': mode, 'code': 'PlanarCode{}'.format(
+                            tuple(meta['size'])), 'sample_pauli_bsf': meta['sample'], 'prob_dist': list(dist),
+                        'real_coset_probabilities': [float(x) for x in ps],
+                        'exact_coset_probabilities_IXYZ': [float(x) for x in exact]}
+    return None
+
+
 # ------------------------------------------------------------------------------------------------ search / replay
 
 def evaluate_input(meta):
     """evaluate the PROPERTY on the real code for the recorded input, with an exact value computed independently of
     Lean (Python integers, Gray-code enumeration of the stabilizer group).  returns a failing-input dict or None"""
     fam = meta['family']
+    if fam == 'planar-tn':
+        return evaluate_tn_input(meta)
     dist = tuple(float.fromhex(x) for x in meta['dist'])
     syndrome = [int(c) for c in meta['syndrome']]
     a, D = numerators(dist)
@@ -708,6 +907,6 @@ def replay(ctx, path):
             metas.append(i)
         for meta in metas:
             r = evaluate_input(meta)
-            print('replay', meta.get('family'), meta.get('size'), meta.get('syndrome'), '->', r)
+            print('replay', meta.get('family'), meta.get('size'), meta.get('syndrome', meta.get('sample')), '->', r)
             bad += bool(r)
     return 1 if bad else 0   # core.do_replay prints the VIOLATION line
